@@ -10,7 +10,7 @@ K = {}
 
 # harness module (kani/<m>.rs) -> modules it needs attached as well
 MODULE_DEPS = {
-    "path": [], "file": [], "cache": [],
+    "path": [], "file": [], "cache": ["file"],
     "dedupe": ["path", "file"],
     "reflink": ["dedupe", "path", "file"],
     "hasher": ["dedupe", "path", "file", "cache"],
@@ -85,6 +85,8 @@ k("c07_transform_frame", "transform::Transform::make_args + Input::prepare_input
 for _o in ("ok", "notfound", "denied", "other"):
     k("c15_hash_file_" + _o, "hasher::FileHasher::hash_file_or_log_err", module="hasher", t=300)
     k("c15_hash_transformed_" + _o, "hasher::FileHasher::hash_transformed_or_log_err", module="hasher", t=300)
+k("c12_put_records", "cache::HashCache::put", module="cache", t=900)
+k("c12_get_records", "cache::HashCache::get", module="cache", t=900)
 k("c12_cache_identity", "hasher::FileHasher::new_cached", module="hasher", t=600)
 k("c12_hasher_flow", "hasher::FileHasher::hash_file + load_hash + store_hash + cache::HashCache::key", module="hasher", t=900)
 
@@ -180,7 +182,7 @@ PROPS = {
         design_ref="DESIGN.md §5 C07",
     ),
     "C12": dict(
-        kani=["c12_hasher_flow", "c12_cache_identity"],
+        kani=["c12_hasher_flow", "c12_cache_identity", "c12_put_records", "c12_get_records"],
         verus=["cache_get_guard"],
         prefixes=["C12."],
         category="proof",
